@@ -2,6 +2,9 @@ import SphericalVerif.Props.C06
 #print axioms C06.truncators
 #print axioms C06.mul_meta
 #print axioms C06.mul_spellings_agree
+#print axioms C06.mul_out_outcome
+#print axioms C06.mul_out_wrong_shape_rejected
+#print axioms C06.mul_out_overwrites
 #print axioms C06.scalar_mul_keeps_meta
 #print axioms C06.per_mode_mul_rejected
 #print axioms C06.div_scalar_keeps_meta
